@@ -322,7 +322,7 @@ def _run(shard, res):
                     res["evaluations"] += 1
         elif k == "lubalong":
             for nm in names:
-                for n in (40, 100):
+                for n in (40, 100) + ((300, 520) if nm in ("rx8", "rx16", "txconf16", "accept") else ()):
                     outs.add(check_stream(res, "luba", [nm] * n, ALL[nm] * n, fast=True))
                     res["evaluations"] += 1
             for a in shard[1]:
@@ -368,7 +368,7 @@ def _run(shard, res):
                     res["evaluations"] += 1
         elif k == "scilong":
             for nm in names:
-                for n in (40, 100):
+                for n in (40, 100) + ((300, 520) if nm in ("st-52", "st-53", "st-50", "st-51") else ()):
                     outs.add(check_stream(res, "sci", [nm] * n, S[nm] * n, fast=True))
                     res["evaluations"] += 1
             for a in shard[1]:
